@@ -70,6 +70,10 @@ def _number(rd, variables):
     if c == b'=':
         rd.read()
         v = _variable(rd, variables, 2)
+        if isinstance(v, float):
+            # a single or double is rounded to the nearest whole number, halves away from zero
+            import math
+            v = int(math.floor(abs(v) + 0.5)) * (-1 if v < 0 else 1)
         if not isinstance(v, int):
             raise IFC()
         return v
